@@ -319,6 +319,9 @@ def reimport_history(ctx, tmpdir, k):
 
 
 MQ_DICT = ["dict", [[["lit", "module"], ["lit", 0]], [["lit", "qualname"], ["lit", "s"]]]]
+# a dict keyed by instances of a str subclass whose str() is not the key's own text (`class Color(str, Enum)`): the field names
+# of the TypedDict are the keys' characters
+LABEL_DICT = ["dict", [[["labelkey", "red"], ["lit", 0]], [["labelkey", "green"], ["lit", "s"]]]]
 
 
 def shard(ctx):
@@ -342,7 +345,7 @@ def shard(ctx):
             return test
 
         def f3(ctx):
-            @given(st.sampled_from(sorted(fx_basic.FUNCS)), st.lists(st.one_of(vals.values(2), vals.values(2), st.just(MQ_DICT), st.just(["list", [MQ_DICT]])), min_size=1, max_size=4), st.sampled_from([0, 2, 5]),
+            @given(st.sampled_from(sorted(fx_basic.FUNCS)), st.lists(st.one_of(vals.values(2), vals.values(2), st.just(MQ_DICT), st.just(["list", [MQ_DICT]]), st.just(LABEL_DICT)), min_size=1, max_size=4), st.sampled_from([0, 2, 5]),
                    st.sampled_from(RY), st.sampled_from(RY))
             def test(fname, argspecs, k, r, y):
                 do_trace(ctx, fname, argspecs, k, r, y, tmpdir)
@@ -380,7 +383,7 @@ def shard(ctx):
                     ctx.record_violation(v.signature, v.spec, v.message)
                 for r in RY:
                     for y in RY:
-                        for last in (["dict", [[["lit", "a"], ["inst", "Outer.Inner"]]]], ["inst", "Registry"], ["cls", "Registry"], ["special", "func"], MQ_DICT):
+                        for last in (["dict", [[["lit", "a"], ["inst", "Outer.Inner"]]]], ["inst", "Registry"], ["cls", "Registry"], ["special", "func"], MQ_DICT, LABEL_DICT):
                             try:
                                 do_trace(ctx, fname, [["lit", 0], last], 2, r, y, tmpdir)
                             except core.Violation as v:
